@@ -58,6 +58,7 @@ type openFile struct {
 	write   bool
 	closed  bool
 	dirPath string
+	rpos    int
 }
 
 type crashNow struct{}
@@ -86,6 +87,13 @@ func (fr *frame) fsStep(op, path string, fallible bool) bool {
 		}
 		entry := fmt.Sprintf("%d %s %s", pid, op, path)
 		if op == "remove" {
+			// which function of the code under test issued the call
+			for f := fr.caller; f != nil; f = f.caller {
+				if f.fn != nil && f.fn.Pkg != nil && strings.HasPrefix(f.fn.Pkg.Pkg.Path(), "grog/internal/") && !strings.Contains(f.fn.Pkg.Pkg.Path(), "zzverif") {
+					entry += " by=" + f.fn.Name()
+					break
+				}
+			}
 			// record what the removed file contained (who owned it)
 			if d, _, e := fr.fsResolve(path, false); d != nil && e != nil && e.node.kind == nFile {
 				if c, ok := normStr(e.node.content).(string); ok {
@@ -767,6 +775,7 @@ func init() {
 type memReader struct {
 	s    value
 	done bool
+	rpos int
 }
 
 // partialOf returns a fresh symbolic proper prefix of s (a torn write).
@@ -888,13 +897,14 @@ func (fr *frame) drain(r iface) (value, value) {
 		res := call(fr.i, fr, token.NoPos, m, []value{r.v}).(tuple)
 		return res[0], res[1]
 	}
-	// struct wrappers embedding a reader as first field (e.g. progress reader, NopCloser)
-	if st, ok := r.v.(structure); ok && len(st) > 0 {
+	// struct wrappers embedding a reader as first field (NopCloser of the support package)
+	if st, ok := r.v.(structure); ok && len(st) > 0 && strings.Contains(r.t.String(), "zzverif/fsm.NopCloser") {
 		if inner, ok := st[0].(iface); ok && inner.t != nil {
 			return fr.drain(inner)
 		}
 	}
-	panic(unsupported(fmt.Sprintf("io: cannot drain reader of type %s", r.t)))
+	// any other reader type (e.g. one defined by the code under test): use its own Read method
+	return fr.drainByRead(r)
 }
 
 // termSepFree: syntactic check that a string term cannot contain '/'.
@@ -930,4 +940,84 @@ func init() {
 		_, b := fr.splitPath(a[0])
 		return b
 	})
+}
+
+// ---------------------------------------------------------------------------------
+// byte-level Read on model readers (used when code under test wraps a reader in its own type)
+
+func (fr *frame) readInto(p []value, content value, pos *int) (int, value) {
+	content = normStr(content)
+	if sa, ok := content.(symStr); ok {
+		content = fr.strAtoB(sa)
+	}
+	cs, _ := toB(content)
+	if *pos >= len(cs) {
+		return 0, fr.globalErr("io", "EOF")
+	}
+	n := copy(p, cs[*pos:])
+	*pos += n
+	return n, nilErr
+}
+
+func init() {
+	register("(*os.File).Read", func(fr *frame, a []value) value {
+		of := fr.fileOf(a[0])
+		if of == nil {
+			return tuple{0, fr.globalErr("os", "ErrInvalid")}
+		}
+		if of.closed {
+			return tuple{0, fr.pathError("read", of.path, eINVAL)}
+		}
+		if of.node.kind != nFile {
+			return tuple{0, fr.pathError("read", of.path, eISDIR)}
+		}
+		if of.eof {
+			return tuple{0, fr.globalErr("io", "EOF")}
+		}
+		if fr.fsStep("read", of.path, true) {
+			return tuple{0, fr.pathError("read", of.path, eIO)}
+		}
+		n, err := fr.readInto(a[1].([]value), of.node.content, &of.rpos)
+		return tuple{n, err}
+	})
+	memRead := func(fr *frame, a []value) value {
+		mr, ok := fr.run().objs[fmt.Sprintf("reader:%p", a[0].(*value))].(*memReader)
+		if !ok {
+			return realBody(fr, a)
+		}
+		if mr.done {
+			return tuple{0, fr.globalErr("io", "EOF")}
+		}
+		n, err := fr.readInto(a[1].([]value), mr.s, &mr.rpos)
+		return tuple{n, err}
+	}
+	register("(*strings.Reader).Read", memRead)
+	register("(*bytes.Reader).Read", memRead)
+}
+
+// drainByRead drains an arbitrary io.Reader by calling its Read method with a concrete buffer.
+func (fr *frame) drainByRead(r iface) (value, value) {
+	m := fr.findMethod(r.t, "Read")
+	if m == nil {
+		panic(unsupported(fmt.Sprintf("io: %s has no Read method", r.t)))
+	}
+	var acc value = ""
+	for iter := 0; iter < 10000; iter++ {
+		buf := make([]value, 512)
+		for i := range buf {
+			buf[i] = uint8(0)
+		}
+		res := call(fr.i, fr, token.NoPos, m, []value{r.v, buf}).(tuple)
+		n := int(asInt64(fr.concretizeInt(res[0])))
+		if n > 0 {
+			acc = strConcat(acc, bytesToStr(buf[:n]))
+		}
+		if e := res[1].(iface); e.t != nil {
+			if fr.truth(fr.errorsIs(e, fr.globalErr("io", "EOF"))) {
+				return acc, nilErr
+			}
+			return acc, e
+		}
+	}
+	panic(unsupported("io: reader did not reach EOF within 10000 reads"))
 }
